@@ -396,7 +396,7 @@ func (p *PX) from(fr *pxFrame, b *ssa.BasicBlock, idx int, st *PXState, depth in
 							nf.fargs[pm] = pc
 						}
 					case *ssa.Function:
-						if av.Parent() != nil {
+						if av.Parent() != nil || (IsRepoFunc(av) && av.Blocks != nil) {
 							nf.fargs[pm] = pxClosure{fn: av}
 						}
 					case *ssa.Parameter:
